@@ -162,7 +162,8 @@ def run_model_comparison(ctx, jobs, issues, delta):
         keys.append(name)
     if not exprs:
         return 0
-    vals = ctx.coq_eval("model", PRE, exprs, chunk=max(1, (len(exprs) + 2) // 3) if ctx.tier == "quick" else max(1, len(exprs) // 16 + 1), timeout=2400)
+    nfiles = 3 if ctx.tier == "quick" else 16
+    vals = ctx.coq_eval("model", PRE, exprs, chunk=max(1, (len(exprs) + nfiles - 1) // nfiles), timeout=1500)
     nrec = 0
     for name, val in zip(keys, vals):
         g, rays = by_geo[name]
